@@ -269,6 +269,15 @@ def _placeholders(path):
         i = k + 1
 
 
+_VARIANT = {}
+
+
+def next_variant(name, n):
+    """sub-variants of an edit are taken in turn, so that a short run meets every one of them"""
+    _VARIANT[name] = _VARIANT.get(name, -1) + 1
+    return _VARIANT[name] % n
+
+
 def edit_dup_opid(d, rng):
     ops = _ops(d)
     if len(ops) < 2:
@@ -339,7 +348,7 @@ def edit_body_and_form(d, rng):
 
 def edit_array_no_items(d, rng):
     p, m, op = rng.choice(_ops(d))
-    if rng.random() < 0.5:
+    if next_variant("array_no_items", 2) == 0:
         op.setdefault("parameters", []).append({"name": "arr", "in": "query", "type": "array"})
         return "array parameter without items"
     code = rng.choice(sorted(op["responses"]))
@@ -350,7 +359,7 @@ def edit_array_no_items(d, rng):
 def edit_required_undefined(d, rng):
     defs = d.setdefault("definitions", {})
     d0 = {"type": "object", "required": ["nope"], "properties": {"there": {"type": "string"}}}
-    k = rng.randrange(5)
+    k = next_variant("required_undefined", 5)
     if k == 1:
         d0["additionalProperties"] = False
     elif k == 2:
@@ -386,8 +395,20 @@ def edit_circular(d, rng):
 
 def edit_bad_pattern(d, rng):
     p, m, op = rng.choice(_ops(d))
-    op.setdefault("parameters", []).append({"name": "pat", "in": "query", "type": "string", "pattern": "("})
-    return "parameter with an invalid pattern"
+    bad = rng.choice(["(", ")<-- bad", "[a-", "a{2,1}", "(?P<n>"])
+    k = next_variant("bad_pattern", 4)
+    if k == 0:
+        op.setdefault("parameters", []).append({"name": "pat", "in": "query", "type": "string", "pattern": bad})
+        return "string parameter with an invalid pattern"
+    if k == 1:
+        op.setdefault("parameters", []).append({"name": "patn", "in": rng.choice(["query", "header"]), "type": rng.choice(["integer", "number", "boolean"]), "pattern": bad})
+        return "non-string parameter with an invalid pattern"
+    if k == 2:
+        code = rng.choice(sorted(op["responses"]))
+        op["responses"][code].setdefault("headers", {})["X-Pat"] = {"type": rng.choice(["string", "integer"]), "pattern": bad}
+        return "response header with an invalid pattern"
+    op.setdefault("parameters", []).append({"name": "pata", "in": "query", "type": "array", "items": {"type": rng.choice(["string", "integer"]), "pattern": bad}})
+    return "items of a parameter with an invalid pattern"
 
 
 def edit_empty_placeholder(d, rng):
